@@ -121,6 +121,7 @@ func drawCdpConfig(r *Rng, cfg *Config) {
 		k["debt_oracle"] = 1 // V2 auctions need an active price record for the debt asset
 	}
 	drawLiqConfig(r, cfg)
+	drawAuxConfig(r, cfg)
 }
 
 func feeChoice(r *Rng) sdk.Dec {
@@ -276,6 +277,7 @@ func setupCdp(w *World) {
 		w.Fund(w.Actors[i].Addr, sdk.NewCoins(sdk.NewCoin(p.Debt.Denom, p.Debt.Decimals.MulRaw(r.Range(1000, 1000000)))))
 	}
 	setupLiqV2(w, r)
+	setupAux(w, r)
 	w.touchModuleAccounts()
 	w.Liq = newLiqTracker(w)
 	w.OnBlock = append(w.OnBlock, func(w *World) { w.Liq.observe(w, false, true) })
